@@ -526,7 +526,7 @@ class Gen:
 
     def quote(self, depth, in_quote):
         return Node('quote', blocks=self.blocks(depth + 1, in_quote=True), space=self.rng.random() < 0.8,
-                    indent=self.rng.choice((0, 0, 0, 0, 1, 2, 3)), blank_first=self.rng.random() < 0.06)
+                    indent=self.rng.choice((0, 0, 0, 0, 1, 2, 3)), blank_first=self.rng.random() < 0.06, blank_last=self.rng.random() < 0.06)
 
     def list_(self, depth, in_quote):
         rng, opt = self.rng, self.opt
@@ -686,7 +686,7 @@ class Emitter:
                     out.extend(Line('', kind='blank') for _ in range(nblank))
                     had_blank = True
             out.extend(lines)
-            if nd.kind == 'custom' and any(l.text == '' for l in lines):
+            if nd.kind == 'custom' and any(l.text == '' for l in lines) and getattr(nd, 'top_blocks', 2) > 1:
                 had_blank = True      # the blank lines of a literal block separate blocks of their own
             prev = nd
         self.had_blank = had_blank
@@ -838,6 +838,9 @@ class Emitter:
     def e_quote(self, nd, ctx):
         ind = self.node_indent(nd, ctx)
         inner = self.blocks(nd.blocks, 'quote')
+        if getattr(nd, 'blank_last', False) and not self.opt.canonical and not (nd.blocks and nd.blocks[-1].kind == 'fence' and not nd.blocks[-1].closed):
+            inner = inner + [Line('', kind='blank')]      # ... and may end with one
+            self.stat('quote-ends-with-blank-line')
         if getattr(nd, 'blank_first', False) and not self.opt.canonical:
             inner = [Line('', kind='blank')] + inner      # a quote may begin with a blank line: '>' alone (5.1)
             self.stat('quote-begins-with-blank-line')
@@ -920,6 +923,21 @@ class Emitter:
 # expected HTML (written straight from the tree, mistletoe dialect for tables)
 # =====================================================================================
 
+def strip_top_level_p(html_text):
+    """<p>/</p> removed where they are direct children (not inside a nested blockquote / list / table)."""
+    import re
+    out = []
+    depth = 0
+    for part in re.split(r'(</?[a-z0-9]+[^>]*>)', html_text):
+        m = re.match(r'<(/?)([a-z0-9]+)', part)
+        if m and m.group(2) in ('blockquote', 'ul', 'ol', 'table'):
+            depth += -1 if m.group(1) else 1
+        if m and m.group(2) == 'p' and depth == 0:
+            continue
+        out.append(part)
+    return ''.join(out)
+
+
 def blocks_html(blocks, tight=False):
     return '\n'.join(x for x in (block_html(b, tight) for b in blocks) if x is not None)
 
@@ -964,8 +982,7 @@ def block_html(nd, tight=False):
     if k == 'refdef':
         return None
     if k == 'custom':
-        import re
-        return re.sub(r'</?p>', '', nd.html) if tight else nd.html
+        return strip_top_level_p(nd.html) if tight else nd.html
     raise ValueError(k)
 
 
